@@ -18,7 +18,7 @@ GRAMMARS = {
     "ignore2": dict(src='start: "a" "b"*\n%ignore " "\n%ignore /#[ab]*;/\n', charset="ab #;x"),
     "opt": dict(src='start: "a"? B\nB: /b+/ | "c"\n', charset="abcx"),
     "mb": dict(src='start: W+\nW: /[é€a]/\n', charset="é€ab𝄞"),
-    "mb3": dict(src='start: W+ "x"\nW: /[日本€]/ | "℃"\n', charset="日本€℃x"),
+    "mb3": dict(src='start: W+ "x"\nW: /[日本€ア]/ | "℃"\n', charset="日本€℃アx"),
     "samepat": dict(src='start: A B | X Y\nA: "ab"\nB: "ab"i\nX: "c+"\nY: /c+/\n', charset="abABc+"),
 }
 
@@ -72,11 +72,15 @@ def lark_case(ctx):
         ok, ls = ctx.call("LarkStuff", _lark, spec["src"], sig="LarkStuff:exception")
         if not ok:
             return
+        if P.get("other_level_first"):
+            # the same LarkStuff object is asked for the OTHER level first (its result is discarded)
+            g0 = ls.byte_cfg if level == "char" else ls.char_cfg
+            ctx.call("other level first", g0, charset=charset, recursion=rec, sig="other-level:exception")
         f = ls.char_cfg if level == "char" else ls.byte_cfg
         ok, cfg = ctx.call(f"{level}_cfg({rec})", f, charset=charset, recursion=rec, sig=f"{level}_cfg:exception")
     if not ok:
         return
-    tag = f"{P['grammar']}:{level}:{rec}"
+    tag = f"{P['grammar']}:{level}:{rec}" + (":after-other-level" if P.get("other_level_first") else "")
     tpat = {t.name: t.pattern.to_regexp() for t in ls.terminals}
     ign = sorted(ls.ignore_terms)
     seqs = _terminal_sequences(ls, L)
@@ -159,6 +163,9 @@ def jobs(tier, seed):
             L = (6 if level == "char" else 6) if quick else (8 if level == "char" else 9)
             for rec in (["right"] if quick and level == "byte" else ["right", "left"]):
                 out.append(dict(case="lark", params=dict(grammar=g, level=level, recursion=rec, L=L), budget=dict(formula_ms=300000), timeout=1500))
+    for g in (["twobyte", "paren"] if quick else ["twobyte", "paren", "mb3", "case"]):
+        for level in ("char", "byte"):
+            out.append(dict(case="lark", params=dict(grammar=g, level=level, recursion="right", L=5 if quick else 7, other_level_first=True), budget=dict(formula_ms=300000), timeout=1500))
     out.append(dict(case="lark", params=dict(grammar="items", level="char", recursion="right", L=3, canary=True)))
     return [dict(j, hashseed=0) for j in out]
 
